@@ -463,7 +463,10 @@ class RebuildMacroInContextVisitor(Visitor):
             new_statements.append(new_stmt)
         if changed:
             return changed, BlockStatement(
-                parallel=block.parallel, statements=new_statements
+                parallel=block.parallel,
+                subcircuit=block.subcircuit,
+                iterations=block.iterations,
+                statements=new_statements,
             )
         else:
             return changed, block
